@@ -499,19 +499,28 @@ fn key_mix_roundtrip(rep: &Report, cen: &mut Census) {
             _ => format!("{}/<0;1;2>/*", xpubs[i]),
         }
     };
-    let templates: [(&str, usize, bool); 10] = [
-        ("wpkh(@0)", 1, false),
-        ("pkh(@0)", 1, false),
-        ("sh(wpkh(@0))", 1, false),
-        ("wsh(and_v(v:pk(@0),pk(@1)))", 2, false),
-        ("sh(wsh(or_d(pk(@0),and_v(v:pk(@1),older(5)))))", 2, false),
-        ("wsh(multi(2,@0,@1,@2))", 3, false),
-        ("sh(sortedmulti(1,@0,@1))", 2, false),
-        ("tr(@0,pk(@1))", 2, true),
-        ("tr(@0,and_v(v:pk(@1),pk(@2)))", 3, true),
-        ("tr(@0,{pk(@1),multi_a(1,@1,@2)})", 3, true),
+    // (template, key positions, taproot, the key positions of each single script)
+    let templates: [(&str, usize, bool, &[&[usize]]); 10] = [
+        ("wpkh(@0)", 1, false, &[&[0]]),
+        ("pkh(@0)", 1, false, &[&[0]]),
+        ("sh(wpkh(@0))", 1, false, &[&[0]]),
+        ("wsh(and_v(v:pk(@0),pk(@1)))", 2, false, &[&[0, 1]]),
+        ("sh(wsh(or_d(pk(@0),and_v(v:pk(@1),older(5)))))", 2, false, &[&[0, 1]]),
+        ("wsh(multi(2,@0,@1,@2))", 3, false, &[&[0, 1, 2]]),
+        ("sh(sortedmulti(1,@0,@1))", 2, false, &[&[0, 1]]),
+        ("tr(@0,pk(@1))", 2, true, &[&[1]]),
+        ("tr(@0,and_v(v:pk(@1),pk(@2)))", 3, true, &[&[1, 2]]),
+        ("tr(@0,{pk(@1),multi_a(1,@1,@2)})", 3, true, &[&[1], &[1, 2]]),
     ];
-    for (tmpl, n, tap) in templates {
+    // number of paths of each kind of key expression (BIP389: within one script they must agree)
+    let paths_of = |k: usize| -> usize {
+        match k {
+            4 | 5 => 2,
+            6 => 3,
+            _ => 1,
+        }
+    };
+    for (tmpl, n, tap, scripts) in templates {
         let kinds = 7usize;
         for code in 0..kinds.pow(n as u32) {
             let mut s = tmpl.to_string();
@@ -526,6 +535,19 @@ fn key_mix_roundtrip(rep: &Report, cen: &mut Census) {
             };
             let a = guard(|| Descriptor::<Dpk>::from_str(&s));
             let b = guard(|| Descriptor::<Dpk>::parse_descriptor(&secp, &s));
+            // the rule itself, from the assignment: a script that mixes multipath expressions of
+            // different lengths has no meaning and must be refused by both parsers
+            let kind_at = |i: usize| (code / kinds.pow(i as u32)) % kinds;
+            let mismatch = scripts.iter().any(|pos| {
+                let ls: std::collections::BTreeSet<usize> = pos.iter().map(|i| paths_of(kind_at(*i))).filter(|l| *l > 1).collect();
+                ls.len() > 1
+            });
+            if mismatch {
+                bump(cen, "key_mix_length_mismatches");
+                if matches!(a, Ok(Ok(_))) || matches!(b, Ok(Ok(_))) {
+                    viol("multipath-length-mismatch-accepted", format!("from_str accepts = {}, parse_descriptor accepts = {}", matches!(a, Ok(Ok(_))), matches!(b, Ok(Ok(_)))));
+                }
+            }
             let objs: Vec<Descriptor<Dpk>> = match (a, b) {
                 (Ok(Ok(x)), Ok(Ok((y, _)))) => {
                     if x != y {
